@@ -136,9 +136,20 @@ def obligations(fnode):
             txt = " ".join(str(c.value) for c in ast.walk(n.args[0]) if isinstance(c, ast.Constant) and isinstance(c.value, str))
             if ">" in txt:
                 out.append(("shell redirection at line %d overwrites its target ('>' not '>>')" % n.lineno, ">>" not in txt, n.lineno))
-    # F2
+    # F2: random draws.  np.random.shuffle must follow its own np.random.seed in the same block; a generator object (x.shuffle,
+    # x.permutation, ...) must be created inside this call (a module-level generator keeps its state between calls)
+    RNG_METHODS = {"shuffle", "permutation", "choice", "rand", "randn", "randint", "uniform", "normal", "random", "integers"}
+    local_assigned = set()
     for n in ast.walk(fnode):
-        if isinstance(n, ast.Call) and _dotted(n.func) in ("np.random.shuffle", "numpy.random.shuffle", "random.shuffle"):
+        if isinstance(n, ast.Name) and isinstance(n.ctx, ast.Store):
+            local_assigned.add(n.id)
+    for n in ast.walk(fnode):
+        if not (isinstance(n, ast.Call) and isinstance(n.func, ast.Attribute) and n.func.attr in RNG_METHODS):
+            continue
+        base = _dotted(n.func.value) or "?"
+        if base in ("np.random", "numpy.random", "random"):
+            if n.func.attr != "shuffle":
+                continue            # draws from the global RNG in the fitting stages are "the random seed" of the property
             stmt = n
             while id(stmt) in par and not isinstance(stmt, ast.stmt):
                 stmt = par[id(stmt)]
@@ -159,6 +170,10 @@ def obligations(fnode):
                     if any(".random." in c for c in calls):
                         break
             out.append(("np.random.shuffle at line %d is preceded by its own np.random.seed(...) in the same block" % n.lineno, ok, n.lineno))
+        elif base.split(".")[0] not in ("self", "rng_unused") and n.func.attr in ("shuffle", "permutation", "choice", "integers", "randint"):
+            root = base.split(".")[0]
+            out.append(("random generator '%s' used at line %d is created (seeded) inside this call, not kept at module level" % (base, n.lineno),
+                        root in local_assigned, n.lineno))
     # F3
     aliases = {"sympy_locs"}
     for n in ast.walk(fnode):
